@@ -153,7 +153,7 @@ class Ctx:
         self.cleanup()
         sys.exit(code)
 
-    def tlc_emit(self, module, cfg=None, env=None, **kw):
+    def tlc_emit(self, module, cfg=None, env=None, ok_exits=(0,), **kw):
         """Run a generator spec that appends JSON lines (as TLA+ strings) to $OUT. Returns the
         decoded records."""
         out = os.path.join(self.work, f"emit_{kw.get('tag') or module}_{len(self.tlc_runs)}.ndjson")
@@ -162,11 +162,12 @@ class Ctx:
         e = dict(env or {})
         e["OUT"] = out
         r = self.tlc(module, cfg=cfg, env=e, **kw)
-        if r["exit"] != 0:          # a generator has no property to violate: retry once, then give up
+        if r["exit"] not in ok_exits:   # a generator has no property to violate: retry once, then give up
             if os.path.exists(out):
                 os.unlink(out)
             r = self.tlc(module, cfg=cfg, env=e, **kw)
-        if r["exit"] != 0:
+        self.last_emit = r
+        if r["exit"] not in ok_exits:
             sys.stdout.write(r["out"][-3000:])
             self.abort(f"generator spec {module} ended with exit {r['exit']}")
         recs = []
